@@ -353,7 +353,7 @@ func (s *sched) run() {
 		}
 		t := s.pick(el)
 		if len(el) > 1 {
-			s.r.nontrivial = true
+			s.r.Nontrivial()
 			if t.id != s.lastIdx {
 				s.preempts++
 			}
